@@ -48,6 +48,8 @@ func runC08(c *Ctx) {
 	il := "obj(alloc<math/big.Int>, call<(*math/big.Int).SetBytes>(self, p1))"
 	rangeRej := "bin<>=>(call<(*math/big.Int).Cmp>(" + il + ", " + n + "), 0)"
 
+	pureScan(c, "C08.pure.no-package-state", c.P.Func("pkg/slip10/elliptic", "PrivateKey.Shift"), c.P.Func("pkg/slip10/elliptic", "PublicKey.Shift"), c.P.Func("pkg/slip10/elliptic", "PrivateKey.Public"), c.P.Func("pkg/slip10/elliptic", "PublicKey.Bytes"), c.P.Func("pkg/slip10", "ExtendedKey.DeriveChild"), c.P.Func("pkg/slip10", "ExtendedKey.Public"))
+
 	// ---- public side
 	if f := c.fn("pkg/slip10/elliptic", "PublicKey.Shift"); f != nil {
 		fn := f.Function
